@@ -16,6 +16,7 @@
 (*   "c("  ")"           dynamic function call (postfix ArgumentList, 3.0+)*)
 (*   "?"                 postfix lookup with an NCName key          (3.1)  *)
 (*   "neg" "pos"         unary minus / plus                                *)
+(*   "root/" "root//"    the leading '/' and '//' of an absolute path      *)
 (*   "instance" "treat" "castable" "cast"   the operator WITH its type     *)
 (*                       operand (instance of T, treat as T, ...)          *)
 (*   "=>"                arrow operator WITH function name and an empty    *)
@@ -23,25 +24,33 @@
 (*   every other token is a binary infix operator, spelled as in XPath     *)
 (*                                                                         *)
 (* Levels are the productions of the W3C EBNF in the order they nest       *)
-(* (XPath 3.1 section A.1, [16] OrExpr .. [49] PostfixExpr; XPath 1.0      *)
-(* section 3: [21] OrExpr .. [27] UnaryExpr, [18] UnionExpr, [19] PathExpr,*)
-(* [20] FilterExpr):                                                       *)
+(* (XPath 3.1 section A.1, [6] Expr, [16] OrExpr .. [49] PostfixExpr;      *)
+(* XPath 1.0 section 3: [21] OrExpr .. [27] UnaryExpr, [18] UnionExpr,     *)
+(* [19] PathExpr, [20] FilterExpr):                                        *)
 (*                                                                         *)
-(*   10 or | 20 and | 30 comparison | 40 '||' | 50 to | 60 + - |           *)
-(*   70 * div idiv mod | 80 union '|' | 90 intersect except |              *)
+(*   5 ',' | 10 or | 20 and | 30 comparison | 40 '||' | 50 to | 60 + - |   *)
+(*   70 mul div idiv mod | 80 union '|' | 90 intersect except |            *)
 (*   100 instance of | 110 treat as | 120 castable as | 130 cast as |      *)
-(*   140 '=>' | 150 unary - + | 160 '!' | 170 / // | 180 [ ] ( ) ?         *)
+(*   140 '=>' | 150 unary - + | 160 '!' | 170 / // | 175 leading / // |    *)
+(*   180 [ ] ( ) ?                                                         *)
 (*                                                                         *)
 (* XPath 1.0 differs: '=' '!=' (EqualityExpr, 30) and '<' '<=' '>' '>='    *)
-(* (RelationalExpr, 35) are two LEFT-associative levels, and UnaryExpr     *)
-(* (75) sits between MultiplicativeExpr and UnionExpr.                     *)
+(* (RelationalExpr, 35) are two LEFT-associative levels, UnaryExpr (75)    *)
+(* sits between MultiplicativeExpr and UnionExpr, and what follows a '/'   *)
+(* is a Step (a node test with predicates), never a primary expression.    *)
+(*                                                                         *)
+(* A leading '/' abbreviates the initial step  fn:root(self::node()) treat *)
+(* as document-node()  followed by '/' (XPath 2.0 3.2): "/a/b" groups as   *)
+(* ((root/a)/b), so "root/" is a prefix operator on the FIRST step only,   *)
+(* level 175.  A '/' that is not followed by a step is a lone '/' (xgc:    *)
+(* leading-lone-slash): outside this fragment, never generated.            *)
 (*                                                                         *)
 (* Trees are S-expression strings in the notation of elementpath's         *)
 (* Token.tree: "(+ (x1) (div (x2) (x3)))"; the n-th operand of the sentence *)
-(* is "(x<n>)"; the type operand is "(T)", the arrow function "(F) ()",    *)
-(* the lookup key "(K)", the function name "f".  Parentheses leave no      *)
-(* trace in a tree.  Errors (the sentence is not in the language) are      *)
-(* strings starting with "ERR:" followed by the violated rule.             *)
+(* is "(x<n>)"; the n-th type operand is "(T<n>)", the n-th arrow function *)
+(* "(F<n>) ()", lookup key "(K<n>)", function name "f<n>".  Parentheses    *)
+(* leave no trace in a tree.  Errors (the sentence is not in the language) *)
+(* are strings starting with "ERR:" followed by the violated rule.         *)
 (***************************************************************************)
 EXTENDS Naturals, Sequences, FiniteSets, TLC
 
@@ -50,11 +59,13 @@ AllVersions == {"1.0", "2.0", "3.0", "3.1"}
 GeneralComp == {"=", "!=", "<", "<=", ">", ">="}
 ValueComp   == {"eq", "ne", "lt", "le", "gt", "ge"}
 NodeComp    == {"is", "<<", ">>"}
+PathOps     == {"/", "//"}
 
-BinOps  == {"or", "and"} \cup GeneralComp \cup ValueComp \cup NodeComp \cup
+BinOps  == {",", "or", "and"} \cup GeneralComp \cup ValueComp \cup NodeComp \cup
            {"||", "to", "+", "-", "*", "div", "idiv", "mod", "union", "|",
-            "intersect", "except", "!", "/", "//"}
-PreOps  == {"neg", "pos"}
+            "intersect", "except", "!"} \cup PathOps
+RootOps == {"root/", "root//"}
+PreOps  == {"neg", "pos"} \cup RootOps
 TypeOps == {"instance", "treat", "castable", "cast"}   \* postfix, carry their type operand
 PostOps == TypeOps \cup {"=>", "?"}                      \* single-token postfix operators
 POpens  == {"[", "c("}                                    \* postfix operators with an inner expression
@@ -76,16 +87,17 @@ Kind(s) == CASE s \in BinOps  -> "bin"
 
 (* ---- the operator table of each version ------------------------------- *)
 V10 == {"or", "and", "=", "!=", "<", "<=", ">", ">=", "+", "-", "*", "div", "mod",
-        "|", "neg", "/", "//", "[", "(", "f("}
+        "|", "neg", "/", "//", "root/", "root//", "[", "(", "f("}
 V20 == V10 \cup ValueComp \cup NodeComp \cup
-       {"to", "idiv", "union", "intersect", "except", "pos"} \cup TypeOps
+       {",", "to", "idiv", "union", "intersect", "except", "pos"} \cup TypeOps
 V30 == V20 \cup {"||", "!", "c("}
 V31 == V30 \cup {"=>", "?"}
 
 InVersion(v) == CASE v = "1.0" -> V10 [] v = "2.0" -> V20 [] v = "3.0" -> V30 [] OTHER -> V31
 
 Level(v, s) ==
-  CASE s = "or"  -> 10
+  CASE s = ","   -> 5
+    [] s = "or"  -> 10
     [] s = "and" -> 20
     [] s \in {"=", "!="} -> 30
     [] s \in {"<", "<=", ">", ">="} -> IF v = "1.0" THEN 35 ELSE 30
@@ -101,9 +113,10 @@ Level(v, s) ==
     [] s = "castable" -> 120
     [] s = "cast"     -> 130
     [] s = "=>"       -> 140
-    [] s \in PreOps   -> IF v = "1.0" THEN 75 ELSE 150
+    [] s \in {"neg", "pos"} -> IF v = "1.0" THEN 75 ELSE 150
     [] s = "!"        -> 160
-    [] s \in {"/", "//"} -> 170
+    [] s \in PathOps  -> 170
+    [] s \in RootOps  -> 175
     [] s \in {"[", "c(", "?"} -> 180
     [] OTHER -> 0          \* operands, brackets: not operators
 
@@ -120,10 +133,9 @@ Assoc(v, s) ==
 (* with a name character ('-' and '.' are name characters) would fuse:      *)
 (* "a -b", "a div b", "xs:integer -b".  "x" stands for both operand styles  *)
 (* (a name, or '$' + name); "?" is rendered "?k", "=>" as "=> f()".         *)
-WordEnd(s)   == s \in {"x", "or", "and", "to", "div", "idiv", "mod", "union", "intersect", "except",
-                       "?"} \cup ValueComp \cup {"is"} \cup TypeOps
-WordStart(s) == s \in {"x", "or", "and", "to", "div", "idiv", "mod", "union", "intersect", "except",
-                       "neg", "-", "f("} \cup ValueComp \cup {"is"} \cup TypeOps
+Words == {"or", "and", "to", "div", "idiv", "mod", "union", "intersect", "except", "is"} \cup ValueComp \cup TypeOps
+WordEnd(s)   == s \in Words \cup {"x", "?"}
+WordStart(s) == s \in Words \cup {"x", "neg", "-", "f("}
 NeedSep == {<<a, b>> \in AllTokens \X AllTokens : WordEnd(a) /\ WordStart(b)}
 
 (* ---- bracket structure ------------------------------------------------- *)
@@ -149,17 +161,19 @@ Balanced(t) ==
 
 IsErr(s) == Len(s) >= 4 /\ SubSeq(s, 1, 4) = "ERR:"
 
-Leaf(t, i)     == "(x" \o ToString(Cardinality({k \in 1..i : t[k] = "x"})) \o ")"   \* i-th token is the n-th operand
-Sym(s)         == CASE s = "neg" -> "-" [] s = "pos" -> "+" [] OTHER -> s
+(* the i-th token is the n-th token of its family *)
+Ord(t, i, S)   == ToString(Cardinality({k \in 1..i : t[k] \in S}))
+Leaf(t, i)     == "(x" \o Ord(t, i, {"x"}) \o ")"
+Sym(s)         == CASE s = "neg" -> "-" [] s = "pos" -> "+" [] s = "root/" -> "/" [] s = "root//" -> "//" [] OTHER -> s
 Node1(s, a)    == IF IsErr(a) THEN a ELSE "(" \o Sym(s) \o " " \o a \o ")"
 Node2(s, a, b) == IF IsErr(a) THEN a ELSE IF IsErr(b) THEN b ELSE "(" \o Sym(s) \o " " \o a \o " " \o b \o ")"
-PostNode(s, a) ==
+PostNode(t, k, a) ==
   IF IsErr(a) THEN a
-  ELSE CASE s \in TypeOps -> "(" \o s \o " " \o a \o " (T))"
-         [] s = "=>"      -> "(=> " \o a \o " (F) ())"
-         [] s = "?"       -> "(? " \o a \o " (K))"
+  ELSE CASE t[k] \in TypeOps -> "(" \o t[k] \o " " \o a \o " (T" \o Ord(t, k, TypeOps) \o "))"
+         [] t[k] = "=>"      -> "(=> " \o a \o " (F" \o Ord(t, k, {"=>"}) \o ") ())"
+         [] t[k] = "?"       -> "(? " \o a \o " (K" \o Ord(t, k, {"?"}) \o "))"
 CallNode(a, b) == IF IsErr(a) THEN a ELSE IF IsErr(b) THEN b ELSE "(" \o a \o " " \o b \o ")"   \* dynamic call: no symbol
-FuncNode(a)    == IF IsErr(a) THEN a ELSE "(f " \o a \o ")"
+FuncNode(t, k, a) == IF IsErr(a) THEN a ELSE "(f" \o Ord(t, k, {"f("}) \o " " \o a \o ")"
 
 (* ---- the declarative grouping ------------------------------------------ *)
 (* G(v,t,d,i,j): the tree of the slice t[i..j], which is bracket-balanced.   *)
@@ -182,7 +196,7 @@ G(v, t, d, i, j) ==
   IF ops = {} THEN
        IF i = j /\ t[i] = "x" THEN Leaf(t, i)
        ELSE IF t[i] \in GOpens /\ Match(t, d, i) = j
-            THEN IF t[i] = "(" THEN G(v, t, d, i + 1, j - 1) ELSE FuncNode(G(v, t, d, i + 1, j - 1))
+            THEN IF t[i] = "(" THEN G(v, t, d, i + 1, j - 1) ELSE FuncNode(t, i, G(v, t, d, i + 1, j - 1))
             ELSE "ERR:adjacent-operands"
   ELSE
   LET L  == SetMin({Level(v, t[k]) : k \in ops})
@@ -193,18 +207,19 @@ G(v, t, d, i, j) ==
   CASE kd = "bin" ->
          IF na /\ Cardinality(PL) > 1 THEN "ERR:non-associative"
          ELSE LET k == SetMax(PL) IN
-              IF v = "1.0" /\ t[k] \in {"/", "//"} /\ k < j /\ t[k + 1] # "x"
-              THEN "ERR:step-expected"      \* XPath 1.0 [3] RelativeLocationPath '/' Step: no primary after '/'
+              IF t[k] \in PathOps /\ k < j /\ (t[k + 1] \in RootOps \/ (v = "1.0" /\ t[k + 1] # "x"))
+              THEN "ERR:step-expected"      \* a path continues with a step (1.0 [3]: '/' Step, no primary)
               ELSE Node2(t[k], G(v, t, d, i, k - 1), G(v, t, d, k + 1, j))
     [] kd = "pre" ->
          LET k == SetMin(PL) IN
          IF k # i THEN "ERR:prefix-as-operand-of-higher-level"
+         ELSE IF t[k] \in RootOps /\ v = "1.0" /\ k < j /\ t[k + 1] # "x" THEN "ERR:step-expected"
          ELSE Node1(t[k], G(v, t, d, i + 1, j))
     [] OTHER ->     \* "post" and "popen"
          IF na /\ Cardinality(PL) > 1 THEN "ERR:non-associative"
          ELSE LET k == SetMax(PL) IN
               IF t[k] \in PostOps
-              THEN IF k # j THEN "ERR:postfix-on-lower-level" ELSE PostNode(t[k], G(v, t, d, i, k - 1))
+              THEN IF k # j THEN "ERR:postfix-on-lower-level" ELSE PostNode(t, k, G(v, t, d, i, k - 1))
               ELSE IF Match(t, d, k) # j THEN "ERR:postfix-on-lower-level"
                    ELSE IF t[k] = "[" THEN Node2("[", G(v, t, d, i, k - 1), G(v, t, d, k + 1, j - 1))
                         ELSE CallNode(G(v, t, d, i, k - 1), G(v, t, d, k + 1, j - 1))
@@ -225,18 +240,22 @@ GrammarTree(v, t) ==
 (* Generated by the token-level automaton of  E ::= U (bin U)*,              *)
 (* U ::= pre* P post*,  P ::= x | "(" E ")" | "f(" E ")",                    *)
 (* post ::= PostOps | "[" E "]" | "c(" E ")".   A generator state:           *)
-(*   t tokens so far, m "pre" (an operand is due) / "post" (one is complete),*)
+(*   t tokens so far,                                                        *)
+(*   m "pre" (an operand is due), "step" (a step is due: right after a       *)
+(*     leading '/'), "post" (an operand is complete),                        *)
 (*   st stack of <<open token, #operators when it was opened>>,              *)
 (*   n operators so far, g bracket groups "(" "f(" so far.                   *)
 (* A "(" group must contain an operator ("(a)" says nothing about grouping). *)
 GenInit == [t |-> <<>>, m |-> "pre", st |-> <<>>, n |-> 0, g |-> 0]
 
 GenExt(s, A, maxOps, maxGroups) ==
-  IF s.m = "pre" THEN
+  IF s.m \in {"pre", "step"} THEN
        {[s EXCEPT !.t = Append(@, "x"), !.m = "post"]}
-       \cup (IF s.n < maxOps THEN {[s EXCEPT !.t = Append(@, p), !.n = @ + 1] : p \in A \cap PreOps} ELSE {})
+       \cup (IF s.n < maxOps /\ s.m = "pre"
+             THEN {[s EXCEPT !.t = Append(@, p), !.n = @ + 1, !.m = IF p \in RootOps THEN "step" ELSE "pre"] : p \in A \cap PreOps}
+             ELSE {})
        \cup (IF s.g < maxGroups
-             THEN {[s EXCEPT !.t = Append(@, o), !.g = @ + 1, !.st = Append(@, <<o, s.n>>)] : o \in A \cap GOpens}
+             THEN {[s EXCEPT !.t = Append(@, o), !.g = @ + 1, !.m = "pre", !.st = Append(@, <<o, s.n>>)] : o \in A \cap GOpens}
              ELSE {})
   ELSE
        (IF s.n < maxOps
@@ -248,22 +267,14 @@ GenExt(s, A, maxOps, maxGroups) ==
              THEN {[s EXCEPT !.t = Append(@, CloseOf(s.st[Len(s.st)][1])), !.st = SubSeq(@, 1, Len(@) - 1)]}
              ELSE {})
 
-RECURSIVE GenClosure(_, _, _, _, _, _)
-GenClosure(frontier, acc, k, A, maxOps, maxGroups) ==
-  LET done == {s.t : s \in {x \in frontier : x.m = "post" /\ x.st = <<>>}} IN
-  IF k = 0 \/ frontier = {} THEN acc \cup done
-  ELSE GenClosure(UNION {GenExt(s, A, maxOps, maxGroups) : s \in frontier}, acc \cup done, k - 1, A, maxOps, maxGroups)
-
-(* all sentences over alphabet A with <= maxOps operators and <= maxGroups "(" / "f(" groups *)
-Sentences(A, maxOps, maxGroups) ==
-  GenClosure({GenInit}, {}, 3 * maxOps + 2 * maxGroups + 1, A, maxOps, maxGroups)
+GenComplete(s) == s.m = "post" /\ s.st = <<>>
 
 NumOps(t) == Cardinality({k \in 1..Len(t) : t[k] \in Operators})
 
 (* ---- laws of the definition (checked by TLC on every sentence) ---------- *)
-(* parentheses around the whole sentence, and around any operand, change nothing *)
-ParenNeutral(v, t) == GrammarTree(v, <<"(">> \o t \o <<")">>) = GrammarTree(v, t) \/ NumOps(t) = 0
-(* a valid tree mentions every operand exactly once, in order (checked through the leaf count) *)
+(* parentheses around the whole sentence change nothing *)
+ParenNeutral(v, t) == NumOps(t) = 0 \/ GrammarTree(v, <<"(">> \o t \o <<")">>) = GrammarTree(v, t)
+(* a valid tree mentions every operand exactly once (checked through the leaf count) *)
 RECURSIVE CountSub(_, _, _)
 CountSub(s, sub, k) == IF k + Len(sub) - 1 > Len(s) THEN 0
                        ELSE (IF SubSeq(s, k, k + Len(sub) - 1) = sub THEN 1 ELSE 0) + CountSub(s, sub, k + 1)
